@@ -5,7 +5,6 @@ INVARIANT OnConnectOnce AtMostOneDisconnect DisconnectOnlyAfterAllow GuardConser
 INVARIANT RegistryOnlyLive IdsDistinct ExactlyOnceAtEnd Emit
 CHECK_DEADLOCK FALSE
 CONSTANTS
-  Conns = {"c1", "c2"}
   Keys = {"A", "B"}
   KeyOf <- MC_KeyOf
   Script = "none"
